@@ -72,7 +72,12 @@ def analyse(an):
                     if fn in NONDET_CALLS or (fn == 'hash' and n.args and not isinstance(n.args[0], ast.Constant)):
                         obls.append({'name': 'E4-nondeterminism-source/%s.%s/%s' % (mod, owner, fn), 'ok': False, 'detail': 'call of %s at line %d' % (fn, n.lineno),
                                      'function': owner})
-            obls.append({'name': 'E1E4-scan/%s.%s' % (mod, owner), 'ok': True, 'detail': 'no global-random use, no other nondeterminism source', 'function': owner})
+            # the per-function scan obligation is the one the lock knows (the per-site obligations above exist only when something is found):
+            # it is discharged exactly when no site of this function was flagged
+            bad = [o for o in obls if not o['ok'] and o['function'] == owner and o['name'].split('/')[1] == '%s.%s' % (mod, owner)
+                   and o['name'].startswith(('E1-', 'E4-'))]
+            obls.append({'name': 'E1E4-scan/%s.%s' % (mod, owner), 'ok': not bad,
+                         'detail': 'no global-random use, no other nondeterminism source' if not bad else '; '.join(o['detail'] for o in bad[:6]), 'function': owner})
     # ---- E2 / E3 for every seed-accepting function -------------------------------------------------------------------------
     for name, fi in sorted(seeded.items()):
         if name == 'get_rng':
